@@ -119,9 +119,14 @@ def _unjson(o):
 
 
 def load_known(prop: str):
-    path = os.path.join(ROOT, "known_findings.jsonl")
+    paths = [os.path.join(ROOT, "known_findings.jsonl")]
+    d = os.path.join(ROOT, "known_findings.d")
+    if os.path.isdir(d):
+        paths += sorted(os.path.join(d, f) for f in os.listdir(d) if f.endswith(".jsonl"))
     out = []
-    if os.path.exists(path):
+    for path in paths:
+        if not os.path.exists(path):
+            continue
         for line in open(path):
             line = line.strip()
             if not line or line.startswith("#"):
@@ -185,7 +190,7 @@ def _run_chx(ob: Chx, module: str, excludes: list[str], seed: int, tag: str) -> 
     t0 = time.time()
     env = dict(os.environ, PYTHONHASHSEED="0", PYNGUIN_VERIF="1")
     try:
-        p = subprocess.run(cmd, capture_output=True, text=True, timeout=ob.timeout * 2 + 120, cwd=ROOT, env=env)
+        p = subprocess.run(cmd, capture_output=True, text=True, timeout=ob.timeout * 8 + 600, cwd=ROOT, env=env)
         err = p.stderr[-2000:]
     except subprocess.TimeoutExpired:
         return {"status": "error", "message": "worker exceeded OS timeout", "wall_s": time.time() - t0}
